@@ -31,6 +31,9 @@ VARIABLES l,        \* index of the next line
           rrv,      \* node number -> (event -> round-received as observed)
           meta,     \* the x record of the segment's Init line (scenario parameters)
           ref,      \* C03: complete output of the reference instance of the segment
+          cev,      \* node number -> set of committed event ids (observed)
+          ctx,      \* node number -> bag of committed transactions (observed)
+          last,     \* node number -> [lcr, ps] as last observed (C10)
           pools,    \* node number -> transaction pool as last observed
           lostSet,  \* nodes that suffered an injected store fault (no longer "honest full-history" nodes)
           evals,    \* C03: event -> << round, witness, lamport >> as first reported by any node
@@ -40,13 +43,19 @@ VARIABLES l,        \* index of the next line
           drift,    \* accumulated conformance mismatches
           stats     \* counters (for vacuity control)
 
-vars == << l, D, nodes, dlv, sto, psto, rrv, meta, ref, pools, lostSet, evals, fames, sub, viol, drift, stats >>
+vars == << l, D, nodes, dlv, sto, psto, rrv, meta, ref, cev, ctx, last, pools, lostSet, evals, fames, sub, viol, drift, stats >>
 
 Line == Trace[l]
 NodeNums == DOMAIN nodes
 
 SeqToSet(s) == { s[i] : i \in DOMAIN s }
 AsSeq(s) == Strict([ i \in 1..Len(s) |-> s[i] ])
+
+FunOfSeq(sq, key(_), val(_)) ==
+    Strict([ e \in { key(sq[k]) : k \in 1..Len(sq) } |->
+               val(sq[CHOOSE k \in 1..Len(sq) : key(sq[k]) = e]) ])
+
+
 
 EvRec(x) ==
     [ c |-> x.c, i |-> x.i, sp |-> x.sp, op |-> x.op,
@@ -65,38 +74,45 @@ Stats0 == [ lines |-> 0, syncs |-> 0, inserts |-> 0, blocks |-> 0, traces |-> 0,
 BodyFields(b) == << b.idx, b.rr, b.txs, b.itxs, b.rcpt, b.fh, b.ph, b.ts, b.big, b.sh, b.dig >>
 
 \* C01: any two nodes' delivered sequences agree index by index
-Inv_C01_Agreement(dv, lost) ==
-    \A a, b \in (DOMAIN dv) \ lost :
-        \A i \in 1..MinI(Len(dv[a]), Len(dv[b])) :
-            BodyFields(dv[a][i]) = BodyFields(dv[b][i])
+Inv_C01_Agreement(dv, lost, n, from) ==
+    \* (checked for the blocks node n delivered in this step against every
+    \* other node's block at the same position; older positions were checked
+    \* when the later of the two was delivered)
+    n \in lost \/
+    \A b \in (DOMAIN dv) \ (lost \cup {n}) :
+        \A i \in from..MinI(Len(dv[n]), Len(dv[b])) :
+            BodyFields(dv[n][i]) = BodyFields(dv[b][i])
 
 \* C02: consecutive indexes from the first delivered one, rr strictly increasing
-Inv_C02_Consecutive(dv) ==
-    \A n \in DOMAIN dv : \A i \in 1..Len(dv[n]) :
-        /\ dv[n][i].idx = dv[n][1].idx + i - 1
-        /\ i > 1 => dv[n][i].rr > dv[n][i-1].rr
+Inv_C02_Consecutive(dvn, from) ==
+    \A i \in from..Len(dvn) :
+        /\ dvn[i].idx = dvn[1].idx + i - 1
+        /\ i > 1 => dvn[i].rr > dvn[i-1].rr
 
 \* C02: the store keeps reporting the delivered body (with state hash and
 \* receipts: dig is the hash of the body including the application's answer)
-Inv_C02_StoreKeepsDelivered(dv, so) ==
-    \A n \in DOMAIN dv : so[n] # << >> =>
-        \A i \in 1..Len(dv[n]) :
-            \E k \in 1..Len(so[n]) : so[n][k].idx = dv[n][i].idx /\ so[n][k].dig = dv[n][i].dig
+Inv_C02_StoreKeepsDelivered(dvn, son) ==
+    \A i \in 1..Len(dvn) :
+        LET k == dvn[i].idx - (IF son = << >> THEN 0 ELSE son[1].idx) + 1 IN
+        IF k \in 1..Len(son) /\ son[k].idx = dvn[i].idx
+        THEN son[k].dig = dvn[i].dig
+        ELSE \E j \in 1..Len(son) : son[j].idx = dvn[i].idx /\ son[j].dig = dvn[i].dig
 
 \* C02: collected signatures only grow
 SigSet(sb) == { << sb.sigs[k].by, sb.sigs[k].k >> : k \in 1..Len(sb.sigs) }
-Inv_C02_SigsOnlyGrow(so, pso) ==
-    \A n \in DOMAIN so :
-        \A k \in 1..Len(pso[n]) :
-            \E j \in 1..Len(so[n]) :
-                /\ so[n][j].idx = pso[n][k].idx
-                /\ SigSet(pso[n][k]) \subseteq SigSet(so[n][j])
+Inv_C02_SigsOnlyGrow(son, pson) ==
+    \A k \in 1..Len(pson) :
+        IF k <= Len(son) /\ son[k].idx = pson[k].idx
+        THEN SigSet(pson[k]) \subseteq SigSet(son[k])
+        ELSE \E j \in 1..Len(son) : son[j].idx = pson[k].idx /\ SigSet(pson[k]) \subseteq SigSet(son[j])
 
 \* C04 on the driver's DAG record
 CommittedEvs(dvn) == Flatten([ i \in 1..Len(dvn) |-> AsSeq(dvn[i].evs) ])
-Inv_C04_Once(dv) ==
-    \A n \in DOMAIN dv :
-        LET cs == CommittedEvs(dv[n]) IN \A i, j \in 1..Len(cs) : i # j => cs[i] # cs[j]
+\* cevn: the events node n had committed before this step
+Inv_C04_Once(cevn, o) ==
+    LET newEvs == Flatten([ k \in 1..Len(o.blocks) |-> AsSeq(o.blocks[k].evs) ]) IN
+    /\ \A i \in 1..Len(newEvs) : newEvs[i] \notin cevn
+    /\ \A i, j \in 1..Len(newEvs) : i # j => newEvs[i] # newEvs[j]
 
 \* ancestry comes from the parents recorded by the driver only.  rv: the
 \* round-received the implementation reported for each event of this node.
@@ -146,20 +162,28 @@ Inv_C04_Payload(DD, dvn, fromIdx) ==
 \* (one entry per submission: duplicate-content transactions are a multiset)
 CountIn(sq, x) == Cardinality({ i \in DOMAIN sq : sq[i] = x })
 
-\* C05: committed transactions were submitted; none committed more often than submitted
-Inv_C05_OnlySubmittedOnce(dv, sb) ==
-    \A n \in DOMAIN dv :
-        LET ts == Flatten([ i \in 1..Len(dv[n]) |-> AsSeq(dv[n][i].txs) ]) IN
-        \A t \in SeqToSet(ts) : t \in DOMAIN sb /\ CountIn(ts, t) <= Len(sb[t])
+\* C05: committed transactions were submitted; none committed more often than
+\* submitted.  ctxn: bag (transaction -> count) node n had committed before.
+NewTxs(o) == Flatten([ k \in 1..Len(o.blocks) |-> AsSeq(o.blocks[k].txs) ])
+BagAdd(bag, ts) ==
+    LET S == SeqToSet(ts) IN
+    Strict([ t \in S |-> Get(bag, t, 0) + CountIn(ts, t) ]) @@ bag
+Inv_C05_OnlySubmittedOnce(ctxn, o, sb) ==
+    LET ts == NewTxs(o)
+        bag == BagAdd(ctxn, ts)
+    IN  \A t \in SeqToSet(ts) : t \in DOMAIN sb /\ bag[t] <= Len(sb[t])
 
 \* C05: an accepted transaction is never dropped (neither pending nor in any
 \* event of the node that accepted it) and never placed in more of its events
 \* than it was submitted.  poolOf: the pools as last OBSERVED.
-Inv_C05_NeverDropped(DD, nds, sb, poolOf) ==
-    \A t \in DOMAIN sb : \A n \in SeqToSet(sb[t]) \cap DOMAIN nds :
+Inv_C05_NeverDropped(DD, nds, sb, poolOf, n, touched) ==
+    \* checked for the transactions whose status can have changed in this step
+    \* of node n: those in its pool before or after the step (the node's own
+    \* events are only created in its own steps)
+    LET own == { e \in DOMAIN DD : DD[e].c = nds[n].h.me } IN
+    \A t \in touched \cap DOMAIN sb :
         LET want == CountIn(sb[t], n)
             inPool == CountIn(poolOf[n], t)
-            own == { e \in DOMAIN DD : DD[e].c = nds[n].h.me }
             placed == FoldSet(LAMBDA e, acc : acc + CountIn(DD[e].txs, t), 0, own)
         IN  placed <= want /\ placed + inPool >= want
 
@@ -184,6 +208,64 @@ Inv_C18_Bounded(DD, b, liars) ==
             (MinOfSet(hts, 0) <= b.ts /\ b.ts <= MaxOfSet(hts, 0))
 
 Liars(mt) == IF "liars" \in DOMAIN mt THEN SeqToSet(mt.liars) ELSE {}
+
+-----------------------------------------------------------------------------
+(* C10: the validator-set history is a replayable function of the blocks  *)
+
+PSTable(ps) == FunOfSeq(ps, LAMBDA v : v.r, LAMBDA v : AsSeq(v.peers))
+
+LatestOf(tb) == tb[MaxOfSet(DOMAIN tb, 0)]
+
+\* the set effective at round r (PeerSetCache.Get semantics)
+EffectiveAt(tb, r) ==
+    LET rs == DOMAIN tb
+        lo == MinOfSet(rs, 0)
+    IN  IF r \in rs THEN tb[r] ELSE IF r < lo THEN tb[lo] ELSE tb[MaxOfSet({ x \in rs : x <= r }, lo)]
+
+RECURSIVE ApplyObserved(_, _, _, _)
+ApplyObserved(vals, itxs, rcpt, k) ==
+    IF k > Len(itxs) THEN vals
+    ELSE LET t == itxs[k]
+             v1 == IF ~(k <= Len(rcpt) /\ rcpt[k]) THEN vals
+                   ELSE IF t.typ = "add"
+                        THEN IF SeqContains(vals, t.peer) THEN vals ELSE Append(vals, t.peer)
+                        ELSE SeqFilterOut(vals, t.peer)
+         IN  ApplyObserved(v1, itxs, rcpt, k + 1)
+
+\* genesis at round 0, then per delivered block with an accepted receipt the
+\* previous latest set +- the peers, effective at round-received + 6
+RECURSIVE ReplayPS(_, _, _)
+ReplayPS(tb, dvn, k) ==
+    IF k > Len(dvn) THEN tb
+    ELSE LET b == dvn[k]
+             changed == \E j \in 1..Len(b.itxs) : j <= Len(b.rcpt) /\ b.rcpt[j]
+         IN  IF ~changed THEN ReplayPS(tb, dvn, k + 1)
+             ELSE ReplayPS(Ext(tb, b.rr + 6, ApplyObserved(LatestOf(tb), b.itxs, b.rcpt, 1)), dvn, k + 1)
+
+Inv_C10_HistoryIsReplay(base, dvn, o) == PSTable(o.ps) = ReplayPS(base, dvn, 1)
+
+Inv_C10_NoRetroactive(prev, o) ==
+    LET tb == PSTable(o.ps) IN
+    /\ \A r \in DOMAIN prev.ps : r \in DOMAIN tb /\ tb[r] = prev.ps[r]
+    /\ \A r \in (DOMAIN tb) \ (DOMAIN prev.ps) : r > prev.lcr
+
+Inv_C10_SameAcrossNodes(n, o, lst, lost) ==
+    LET tb == PSTable(o.ps) IN
+    \A m \in (DOMAIN lst) \ (lost \cup {n}) :
+        \A r \in DOMAIN tb \cap DOMAIN lst[m].ps : tb[r] = lst[m].ps[r]
+
+Inv_C10_BlockPeers(o) ==
+    LET tb == PSTable(o.ps) IN
+    \A k \in 1..Len(o.blocks) : AsSeq(o.blocks[k].peers) = EffectiveAt(tb, o.blocks[k].rr)
+
+Inv_C10_MembersOnly(DD, o) ==
+    LET tb == PSTable(o.ps) IN
+    /\ \A k \in 1..Len(o.rounds) : \A j \in 1..Len(o.rounds[k].ws) :
+          LET e == o.rounds[k].ws[j].e IN
+          e \in DOMAIN DD => SeqContains(EffectiveAt(tb, o.rounds[k].r), DD[e].c)
+    /\ ("store" \in DOMAIN o) =>
+          \A k \in 1..Len(o.store) : \A j \in 1..Len(o.store[k].sigs) :
+              SeqContains(EffectiveAt(tb, o.store[k].rr), o.store[k].sigs[j].by)
 
 -----------------------------------------------------------------------------
 (* Conformance checks: specification result = logged implementation result *)
@@ -322,10 +404,6 @@ TraceSyncResult(DD, nd, x, o) ==
     IN  [ nd |-> nd4, mis |-> st2.mis, adm |-> st2.adm, selfok |-> st2.selfok,
           wantsOK |-> (from = 0 \/ wants \/ x.new = << >>), skips |-> st2.skips ]
 
-FunOfSeq(sq, key(_), val(_)) ==
-    Strict([ e \in { key(sq[k]) : k \in 1..Len(sq) } |->
-               val(sq[CHOOSE k \in 1..Len(sq) : key(sq[k]) = e]) ])
-
 Checks(pid, name, ok) ==
     IF ok THEN {}
     ELSE IF Line.a = "Sync" /\ "lost" \in DOMAIN Line.x
@@ -350,6 +428,9 @@ TInit ==
     /\ meta = [ nc |-> 0 ]
     /\ ref = [ set |-> FALSE ]
     /\ pools = EmptyFun
+    /\ last = EmptyFun
+    /\ cev = EmptyFun
+    /\ ctx = EmptyFun
     /\ lostSet = {}
     /\ evals = EmptyFun
     /\ fames = EmptyFun
@@ -370,6 +451,9 @@ TraceReset ==
            /\ psto' = [ n \in ns |-> << >> ]
            /\ rrv' = [ n \in ns |-> << >> ]
            /\ pools' = [ n \in ns |-> << >> ]
+           /\ last' = [ n \in ns |-> [ lcr |-> -1, ps |-> (0 :> gen) ] ]
+           /\ cev' = [ n \in ns |-> {} ]
+           /\ ctx' = [ n \in ns |-> << >> ]
     /\ lostSet' = {}
     /\ D' = EmptyFun
     /\ meta' = Line.x
@@ -384,7 +468,7 @@ TraceCreate ==
     /\ Line.a = "Create"
     /\ D' = Ext(D, Line.x.id, EvRec(Line.x))
     /\ stats' = Bump(Bump(stats, "creates"), "lines")
-    /\ UNCHANGED << nodes, dlv, sto, psto, rrv, meta, pools, lostSet, evals, fames, ref, sub, viol, drift >>
+    /\ UNCHANGED << nodes, dlv, sto, psto, rrv, meta, cev, ctx, last, pools, lostSet, evals, fames, ref, sub, viol, drift >>
 
 TraceSubmit ==
     /\ Line.a = "Submit"
@@ -393,7 +477,7 @@ TraceSubmit ==
     /\ sub' = Ext(sub, Line.x.tx, Append(Get(sub, Line.x.tx, << >>), Line.n))
     /\ pools' = IF Line.n \in DOMAIN pools THEN [ pools EXCEPT ![Line.n] = Append(@, Line.x.tx) ] ELSE pools
     /\ stats' = Bump(stats, "lines")
-    /\ UNCHANGED << D, dlv, sto, psto, rrv, meta, lostSet, evals, fames, ref, viol, drift >>
+    /\ UNCHANGED << D, dlv, sto, psto, rrv, meta, cev, ctx, last, lostSet, evals, fames, ref, viol, drift >>
 
 \* Everything a Sync line implies, computed once (TLC caches LET values inside
 \* an operator, not inside an action).
@@ -428,22 +512,28 @@ SyncOutcome(n, x, o) ==
         crossVals == lostNow \/ \A e \in DOMAIN valsNew : e \in DOMAIN evals => evals[e] = valsNew[e]
         crossRR == lostNow \/ \A e \in DOMAIN rrNew : \A m \in (DOMAIN rrv) \ lost1 : (m # n /\ e \in DOMAIN rrv[m]) => rrv[m][e] = rrNew[e]
         crossFame == lostNow \/ \A e \in DOMAIN fameNew : e \in DOMAIN fames => fames[e] = fameNew[e]
-        V == Checks("C01", "Inv_C01_Agreement", o.blocks = << >> \/ Inv_C01_Agreement(dlv1, lost1))
-             \cup Checks("C02", "Inv_C02_Consecutive", o.blocks = << >> \/ Inv_C02_Consecutive(dlv1))
-             \cup Checks("C02", "Inv_C02_StoreKeepsDelivered", ~hasStore \/ Inv_C02_StoreKeepsDelivered(dlv1, sto1))
-             \cup Checks("C02", "Inv_C02_SigsOnlyGrow", ~hasStore \/ Inv_C02_SigsOnlyGrow(sto1, psto1))
+        V == Checks("C01", "Inv_C01_Agreement", o.blocks = << >> \/ Inv_C01_Agreement(dlv1, lost1, n, from))
+             \cup Checks("C02", "Inv_C02_Consecutive", o.blocks = << >> \/ Inv_C02_Consecutive(dlv1[n], from))
+             \cup Checks("C02", "Inv_C02_StoreKeepsDelivered", ~hasStore \/ Inv_C02_StoreKeepsDelivered(dlv1[n], sto1[n]))
+             \cup Checks("C02", "Inv_C02_SigsOnlyGrow", ~hasStore \/ Inv_C02_SigsOnlyGrow(sto1[n], psto1[n]))
              \cup Checks("C03", "Inv_C03_CrossNodeValues", crossVals)
              \cup Checks("C03", "Inv_C03_CrossNodeRoundReceived", crossRR)
              \cup Checks("C03", "Inv_C03_CrossNodeFame", crossFame)
-             \cup Checks("C04", "Inv_C04_Once", o.blocks = << >> \/ Inv_C04_Once(dlv1))
+             \cup Checks("C04", "Inv_C04_Once", o.blocks = << >> \/ Inv_C04_Once(cev[n], o))
              \cup Checks("C04", "Inv_C04_Causal", Inv_C04_Causal(D, rv1, o, dlv1[n]))
              \cup Checks("C04", "Inv_C04_BlockIsFrame", Inv_C04_BlockIsFrame(D, rv1, o))
              \cup Checks("C04", "Inv_C04_NoLateReceive", lostNow \/ Inv_C04_NoLateReceive(nd.h.lcr, o))
              \cup Checks("C04", "Inv_C04_Payload", o.blocks = << >> \/ Inv_C04_Payload(D, dlv1[n], from))
-             \cup Checks("C05", "Inv_C05_OnlySubmittedOnce", o.blocks = << >> \/ Inv_C05_OnlySubmittedOnce(dlv1, sub))
+             \cup Checks("C05", "Inv_C05_OnlySubmittedOnce", o.blocks = << >> \/ Inv_C05_OnlySubmittedOnce(ctx[n], o, sub))
              \cup Checks("C05", "Inv_C05_NeverDropped",
-                         Inv_C05_NeverDropped(D, nodes1, sub, [ pools EXCEPT ![n] = AsSeq(o.txpool) ]))
+                         Inv_C05_NeverDropped(D, nodes1, sub, [ pools EXCEPT ![n] = AsSeq(o.txpool) ], n,
+                                              SeqToSet(pools[n]) \cup SeqToSet(o.txpool)))
              \cup Checks("C07", "Inv_C07_OnlyAdmissible", r.adm)
+             \cup Checks("C10", "Inv_C10_HistoryIsReplay", lostNow \/ Inv_C10_HistoryIsReplay(0 :> AsSeq(meta.genesis), dlv1[n], o))
+             \cup Checks("C10", "Inv_C10_NoRetroactive", Inv_C10_NoRetroactive(last[n], o))
+             \cup Checks("C10", "Inv_C10_SameAcrossNodes", lostNow \/ Inv_C10_SameAcrossNodes(n, o, last, lost1))
+             \cup Checks("C10", "Inv_C10_BlockPeers", Inv_C10_BlockPeers(o))
+             \cup Checks("C10", "Inv_C10_MembersOnly", lostNow \/ Inv_C10_MembersOnly(D, o))
              \cup Checks("C18", "Inv_C18_IsMedian", \A k \in 1..Len(o.blocks) : Inv_C18_IsMedian(D, o.blocks[k]))
              \cup Checks("C18", "Inv_C18_Bounded", \A k \in 1..Len(o.blocks) : Inv_C18_Bounded(D, o.blocks[k], Liars(meta)))
         F == IF lostNow THEN {} ELSE
@@ -461,6 +551,9 @@ SyncOutcome(n, x, o) ==
              \cup Checks("-", "Conf_SelfEvent", r.selfok /\ r.wantsOK)
              \cup Checks("-", "Conf_FameUnambiguous", ~h1.ambig)
     IN  [ nodes |-> nodes1, dlv |-> dlv1, sto |-> sto1, psto |-> psto1, rrv |-> [ rrv EXCEPT ![n] = rv1 ],
+          last |-> [ last EXCEPT ![n] = [ lcr |-> o.lcr, ps |-> PSTable(o.ps) ] ],
+          cev |-> [ cev EXCEPT ![n] = @ \cup UNION { SeqToSet(o.blocks[k].evs) : k \in 1..Len(o.blocks) } ],
+          ctx |-> [ ctx EXCEPT ![n] = BagAdd(@, NewTxs(o)) ],
           evals |-> IF lostNow THEN evals ELSE valsNew @@ evals, fames |-> IF lostNow THEN fames ELSE fames @@ fameNew, lostSet |-> lost1, pools |-> [ pools EXCEPT ![n] = AsSeq(o.txpool) ],
           viol |-> AddCapped(viol, V), drift |-> AddCapped(drift, F),
           stats |-> [ stats EXCEPT !.lines = @ + 1, !.syncs = @ + 1,
@@ -478,6 +571,9 @@ TraceSync ==
           /\ rrv' = R.rrv
           /\ evals' = R.evals
           /\ pools' = R.pools
+          /\ last' = R.last
+          /\ cev' = R.cev
+          /\ ctx' = R.ctx
           /\ lostSet' = R.lostSet
           /\ fames' = R.fames
           /\ viol' = R.viol
@@ -518,14 +614,14 @@ TraceQuorum ==
           /\ viol' = AddCapped(viol, R.v)
           /\ drift' = AddCapped(drift, R.f)
           /\ stats' = [ stats EXCEPT !.lines = @ + 1, !.inserts = @ + R.n ]
-    /\ UNCHANGED << D, nodes, dlv, sto, psto, rrv, meta, pools, lostSet, evals, fames, ref, sub >>
+    /\ UNCHANGED << D, nodes, dlv, sto, psto, rrv, meta, cev, ctx, last, pools, lostSet, evals, fames, ref, sub >>
 
 TraceQuorumAccept ==
     /\ Line.a = "QuorumAccept"
     /\ LET rows == Line.x.rows IN
        /\ viol' = AddCapped(viol, Checks("C19", "Inv_C19_Accept", \A k \in 1..Len(rows) : Inv_C19_Accept(rows[k])))
        /\ stats' = [ stats EXCEPT !.lines = @ + 1, !.inserts = @ + Len(rows), !.blocks = @ + Len(rows) ]
-    /\ UNCHANGED << D, nodes, dlv, sto, psto, rrv, meta, pools, lostSet, evals, fames, ref, sub, drift >>
+    /\ UNCHANGED << D, nodes, dlv, sto, psto, rrv, meta, cev, ctx, last, pools, lostSet, evals, fames, ref, sub, drift >>
 
 -----------------------------------------------------------------------------
 (* C03: one DAG, many instances                                            *)
@@ -583,7 +679,7 @@ TraceHgInsert ==
     /\ Line.a = "HgInsert"
     /\ \E R \in { HgOutcome(Line.n, Line.x, Line.o) } :
           /\ nodes' = R.nodes /\ ref' = R.ref /\ drift' = R.drift /\ stats' = R.stats
-    /\ UNCHANGED << D, dlv, sto, psto, rrv, meta, pools, lostSet, evals, fames, sub, viol >>
+    /\ UNCHANGED << D, dlv, sto, psto, rrv, meta, cev, ctx, last, pools, lostSet, evals, fames, sub, viol >>
 
 TraceInstance ==
     /\ Line.a = "Instance"
@@ -614,7 +710,7 @@ TraceInstance ==
     /\ stats' = [ stats EXCEPT !.lines = @ + 1, !.inserts = @ + Line.x.nins,
                                !.blocks = @ + Len(Line.o.blocks),
                                !.skipped = @ + (IF Line.o.err # "" THEN 1 ELSE 0) ]
-    /\ UNCHANGED << D, nodes, dlv, sto, psto, rrv, meta, pools, lostSet, evals, fames, ref, sub, drift >>
+    /\ UNCHANGED << D, nodes, dlv, sto, psto, rrv, meta, cev, ctx, last, pools, lostSet, evals, fames, ref, sub, drift >>
 
 \* common.Median tabulated from the real code on enumerated lists
 TraceMedian ==
@@ -623,19 +719,58 @@ TraceMedian ==
        /\ viol' = AddCapped(viol, Checks("C18", "Inv_C18_MedianFunction",
                         \A k \in 1..Len(rows) : Median(AsSeq(rows[k].l)) = rows[k].m))
        /\ stats' = [ stats EXCEPT !.lines = @ + 1, !.inserts = @ + Len(rows) ]
-    /\ UNCHANGED << D, nodes, dlv, sto, psto, rrv, meta, pools, lostSet, evals, fames, ref, sub, drift >>
+    /\ UNCHANGED << D, nodes, dlv, sto, psto, rrv, meta, cev, ctx, last, pools, lostSet, evals, fames, ref, sub, drift >>
+
+-----------------------------------------------------------------------------
+(* node mode: membership                                                   *)
+
+\* a node (re)starts with a fresh store: a new incarnation
+TraceNodeUp ==
+    /\ Line.a = "NodeUp"
+    /\ LET n == Line.x.n
+           gen == AsSeq(Line.x.genesis)
+       IN  /\ nodes' = Ext(nodes, n, InitCore(gen, Line.x.me))
+           /\ dlv' = Ext(dlv, n, << >>)
+           /\ sto' = Ext(sto, n, << >>)
+           /\ psto' = Ext(psto, n, << >>)
+           /\ rrv' = Ext(rrv, n, << >>)
+           /\ pools' = Ext(pools, n, << >>)
+           /\ last' = Ext(last, n, [ lcr |-> -1, ps |-> (0 :> gen) ])
+           /\ cev' = Ext(cev, n, {})
+           /\ ctx' = Ext(ctx, n, << >>)
+           /\ lostSet' = lostSet \ {n}
+    /\ stats' = Bump(stats, "lines")
+    /\ UNCHANGED << D, meta, ref, evals, fames, sub, viol, drift >>
+
+\* core.addInternalTransaction (join request served, or leave)
+TraceAddItx ==
+    /\ Line.a = "AddItx"
+    /\ nodes' = [ nodes EXCEPT ![Line.n].itxpool = Append(@, Line.x.itx) ]
+    /\ stats' = Bump(stats, "lines")
+    /\ UNCHANGED << D, dlv, sto, psto, rrv, meta, ref, cev, ctx, last, pools, lostSet, evals, fames, sub, viol, drift >>
+
+\* a join / leave call returned
+TraceOpDone ==
+    /\ Line.a = "OpDone"
+    /\ nodes' = IF Line.x.kind = "join" /\ Line.o.state # "Shutdown"
+                THEN [ nodes EXCEPT ![Line.n].acceptedRound = Line.x.acceptedRound,
+                                    ![Line.n].h.removedRound = -1 ]
+                ELSE nodes
+    /\ stats' = Bump(stats, "lines")
+    /\ UNCHANGED << D, dlv, sto, psto, rrv, meta, ref, cev, ctx, last, pools, lostSet, evals, fames, sub, viol, drift >>
 
 \* lines that carry no specification step (the driver could not run the step)
 TraceNoop ==
-    /\ Line.a \in { "SyncFail", "Note" }
+    /\ Line.a \in { "SyncFail", "Note", "StateChange" }
     /\ stats' = Bump(stats, "lines")
-    /\ UNCHANGED << D, nodes, dlv, sto, psto, rrv, meta, pools, lostSet, evals, fames, ref, sub, viol, drift >>
+    /\ UNCHANGED << D, nodes, dlv, sto, psto, rrv, meta, cev, ctx, last, pools, lostSet, evals, fames, ref, sub, viol, drift >>
 
 TraceStep ==
     /\ l <= NLines
     /\ l' = l + 1
     /\ \/ TraceReset \/ TraceCreate \/ TraceSubmit \/ TraceSync \/ TraceNoop
        \/ TraceQuorum \/ TraceQuorumAccept \/ TraceMedian \/ TraceHgInsert \/ TraceInstance
+       \/ TraceNodeUp \/ TraceAddItx \/ TraceOpDone
 
 TraceDone ==
     /\ l = NLines + 1
@@ -644,11 +779,15 @@ TraceDone ==
     /\ PrintT(<< "@@DRIFT", drift >>)
     /\ PrintT(<< "@@STATS", stats >>)
     /\ PrintT(<< "@@DONE", NLines >>)
-    /\ UNCHANGED << D, nodes, dlv, sto, psto, rrv, meta, ref, pools, lostSet, evals, fames, sub, viol, drift, stats >>
+    /\ UNCHANGED << D, nodes, dlv, sto, psto, rrv, meta, ref, cev, ctx, last, pools, lostSet, evals, fames, sub, viol, drift, stats >>
 
 TNext == TraceStep \/ TraceDone
 
 TSpec == TInit /\ [][TNext]_vars
+
+\* Trace validation explores one linear behaviour: a state is identified by
+\* the position in the trace (saves fingerprinting the whole, large, state)
+TView == l
 
 \* the error-trace projection (keeps TLC output small)
 TAlias == [ l |-> l, viol |-> viol, drift |-> drift ]
